@@ -13,9 +13,12 @@ RULE = ("seeded generator of fault histories run on the real NewReconnectableCli
         "server's dial, Close twice, every failing reconnect kind: config error / factory error / TLS failure / auth rejection, eager and "
         "lazy start incl. failing eager start, stream-limit exhaustion, UDP-disabled DialError on a dead connection, concurrent bursts on "
         "nil/dead/closed clients, a reconnect HELD inside configFunc / ConnFactory.New / before the handshake while further callers and "
-        "Close arrive and the holds are opened in a chosen order) plus random scripts of calls from goroutines 0-3, kills (local socket failure or server-initiated "
+        "Close arrive and the holds are opened in a chosen order, a failed connection attempt of every kind - first use or reconnect after a loss, one "
+        "or two failures in a row - followed directly by TCP() / UDP() / Close() on the same client) plus random scripts of calls from goroutines 0-3, kills (local socket failure or server-initiated "
         "disconnect), fault queues, Close at any point. Non-trivial = the history contains a second successful connect, a failing "
-        "reconnect, or a Close. Distinct = distinct JSON script.")
+        "reconnect, or a Close. Distinct = distinct JSON script. Every call of a history (constructor, TCP, UDP, Close, the kick stream) runs under recover: "
+        "a panicking call is a failing verdict with the history as replay (and a CPanic case = a disagreement with the model by construction); if "
+        "the test process dies all the same, the histories that were in flight are run again one at a time to name the one that kills it.")
 ASSUMPTIONS = [
     "quic-go reports a lost connection (OpenStream / stream I/O fail with a permanent error) once the connection context is done; how fast it notices a silent peer is not modelled",
     "clientImpl.Close closes the PacketConn it got from the factory exactly once per call (part of the model as read; checked by the harness census on every history)",
